@@ -758,6 +758,66 @@ def flaky_remove_case(impl, g, errno_name):
     return probs
 
 
+def cli_case(argv):
+    """`drf ringbuffer <argv>` up to the construction of DigitalRFRingbuffer: the limits it is constructed with"""
+    import argparse
+    import signal
+    from digital_rf import ringbuffer as M
+    got = {}
+
+    class Stop(Exception):
+        pass
+
+    class Fake:
+        def __init__(self, path, **kw):
+            got.update(kw)
+            raise Stop()
+    real, old = M.DigitalRFRingbuffer, signal.getsignal(signal.SIGTERM)
+    M.DigitalRFRingbuffer = Fake
+    try:
+        parser = M._build_ringbuffer_parser(argparse.ArgumentParser)
+        args = parser.parse_args(argv)
+        try:
+            args.func(args)
+        except Stop:
+            pass
+    finally:
+        M.DigitalRFRingbuffer = real
+        signal.signal(signal.SIGTERM, old)
+    return got
+
+
+CLI_CASES = [
+    # argv (after the path)                      size (bytes)      count  duration (ms)
+    (["-l", "2.5"],                              None,             None,  2500.0),
+    (["-l", "0.5"],                              None,             None,  500.0),
+    (["-l", "3"],                                None,             None,  3000.0),
+    (["-l", "60*60"],                            None,             None,  3600000.0),
+    (["-c", "7"],                                None,             7,     None),
+    (["-z", "1500"],                             1500,             None,  None),
+    (["-z", "2KB"],                              2000,             None,  None),
+    (["-z", "2KiB"],                             2048,             None,  None),
+    (["-z", "1.5MB"],                            1500000.0,        None,  None),
+    (["-z", "3GiB", "-c", "2", "-l", "1.25"],    3 * 1024 ** 3,    2,     1250.0),
+    ([],                                         -200e6,           None,  None),
+]
+
+
+def cli_leg(res):
+    """the command line in front of the handler: the limits the user types are the limits the handler enforces"""
+    for argv, size, count, dur in CLI_CASES:
+        res.count("command-line-limits")
+        try:
+            got = cli_case(["/nonexistent-verif"] + argv)
+            obs = [got.get("size"), got.get("count"), got.get("duration")]
+        except BaseException as e:  # noqa
+            obs = ["exc", repr(e)[:200]]
+        if obs != [size, count, dur]:
+            res.violation("command-line-limit-differs", "`drf ringbuffer` hands the ring buffer another limit than the one typed",
+                          {"cli_argv": argv}, {"size": size, "count": count, "duration_ms": dur}, obs)
+            return
+
+
 def restart_leg(res):
     rng = res.rng
     impl = Impl()
@@ -784,6 +844,7 @@ def run(res):
     try:
         _run(res)
         restart_leg(res)
+        cli_leg(res)
     finally:
         global _POOL
         try:
@@ -926,6 +987,15 @@ def dec_op(o):
 def replay(res, rp):
     impl = Impl()
     i = rp["input"]
+    if "cli_argv" in i:
+        common.use_impl()
+        got = cli_case(["/nonexistent-verif"] + i["cli_argv"])
+        obs = {"size": got.get("size"), "count": got.get("count"), "duration_ms": got.get("duration")}
+        print("drf ringbuffer <path> %s  ->  DigitalRFRingbuffer(size=%r, count=%r, duration=%r ms)" % (" ".join(i["cli_argv"]), obs["size"], obs["count"], obs["duration_ms"]))
+        print("expected", rp.get("expected"))
+        bad = obs != rp.get("expected")
+        print("replay verdict:", "STILL VIOLATING" if bad else "no longer violating")
+        return 1 if bad else 0
     if "flaky_remove" in i:
         probs = flaky_remove_case(impl, *i["flaky_remove"])
         print("count limit 1, os.remove of the expired file fails once with", i["flaky_remove"][1], "(channel group %d)" % i["flaky_remove"][0])
